@@ -35,7 +35,11 @@ var (
 
 // verifGoidProbe finds the offset of the goroutine id inside the runtime's g structure by comparing,
 // on several goroutines, the id printed by runtime.Stack with the words of g. No offset is assumed:
-// when no single word matches on all probes the slow method stays in use.
+// when no single word matches on all probes the slow method stays in use. Only the first 320 bytes of g are
+// looked at (g is larger in every supported Go version; the id sits at 152 in go1.25); pointer checking is off in
+// these two functions because the words of g are read as plain integers (-race enables checkptr).
+//
+//go:nocheckptr
 func verifGoidProbe() {
 	type probe struct {
 		g  unsafe.Pointer
@@ -52,7 +56,7 @@ func verifGoidProbe() {
 		}(i)
 	}
 	wg.Wait()
-	for off := 0; off < 512; off += 8 {
+	for off := 0; off < 320; off += 8 {
 		ok := true
 		for _, p := range probes {
 			if p.g == nil || p.id == 0 || *(*int64)(unsafe.Add(p.g, off)) != p.id {
@@ -67,6 +71,7 @@ func verifGoidProbe() {
 	}
 }
 
+//go:nocheckptr
 func verifGoid() int64 {
 	verifGoidOnce.Do(verifGoidProbe)
 	if verifGoidOffset < 0 {
